@@ -234,6 +234,9 @@ def run(ctx):
         ok = ok or (any(c == f'not {fl}' for c in conds for fl in flags) and any("'remote' in" in c for c in conds))
     ctx.check('R4', 'the metaclass raises Warning when a remote-aware __getstate__ sits below one that is not', ok, cf.short, 'inconsistent-chain-accepted',
               'a class whose opt-in is inconsistent along its inheritance chain is silently accepted', where=loc(cf, cf.node))
+    # the per-base classification, evaluated: a __getstate__ that names `remote` makes its class remote-aware whatever else it accepts; one without
+    # `remote` is a pass-through if it takes **kwargs and blocks the chain otherwise
+    check_base_classification(ctx, cf, 'R4')
     # the verdict cache: written only with the final verdict, and never on the path that rejects the class
     gcf = ctx.an.cfg(cf, M)
     cache_stores = [n for n in gcf.nodes if n.stmt is not None and n.part in (None, 'store') and isinstance(n.stmt, ast.Assign)
@@ -261,6 +264,90 @@ def run(ctx):
     ok = bool(stop) and any(isinstance(x, ast.Assign) and is_name(x.targets[0], HR) and norm(x.value) == 'False' for x in stop[0].body) and any(isinstance(x, ast.Break) for x in stop[0].body)
     ctx.check('R4', 'a class with its own __reduce__/__reduce_ex__ is left to standard pickling', ok, cf.short, 'custom-reduce-overridden',
               'classes defining their own __reduce__ are routed to the remote reducer', where=loc(cf, cf.node))
+
+
+def check_base_classification(ctx, cf, rule):
+    """Small abstract evaluation of the loop body that classifies one base class of the MRO by the signature of its __getstate__.  The two facts a
+    signature contributes - R: it has a parameter named `remote`; K: it has a **kwargs parameter - are given all four truth assignments; tests that
+    mention neither are explored both ways.  Specification: R -> remote-aware (the verdict flag is raised, or the inconsistency Warning); not R and K
+    -> the base is skipped (pass-through); not R and not K -> the chain is blocked (the allow flag is lowered)."""
+    loops = [n for n in walk_local(cf.node) if isinstance(n, ast.For) and '__mro__' in norm(n.iter)]
+    gs = [st for lp in loops for st in walk_local(lp) if isinstance(st, ast.If) and '__getstate__' in norm(st.test)]
+    if not ctx.check(rule, 'the metaclass inspects the __getstate__ of every base of the MRO', bool(gs), cf.short, 'no-signature-inspection',
+                     'the type check does not look at the __getstate__ of the bases', where=loc(cf, cf.node)):
+        return
+    body = gs[0].body
+    true_names = {st.targets[0].id for st in walk_local(cf.node) if isinstance(st, ast.Assign) and isinstance(st.targets[0], ast.Name) and isinstance(st.value, ast.Constant) and st.value.value is True}
+    false_names = {st.targets[0].id for st in walk_local(cf.node) if isinstance(st, ast.Assign) and isinstance(st.targets[0], ast.Name) and isinstance(st.value, ast.Constant) and st.value.value is False}
+    rets = [st.value.id for st in cf.node.body if isinstance(st, ast.Return) and isinstance(st.value, ast.Name)]
+    verdict = rets[-1] if rets else None
+    allow = (true_names & false_names) - {verdict}
+
+    def ev(t, env):
+        if isinstance(t, ast.UnaryOp) and isinstance(t.op, ast.Not):
+            v = ev(t.operand, env)
+            return None if v is None else not v
+        if isinstance(t, ast.BoolOp):
+            vs = [ev(v, env) for v in t.values]
+            if isinstance(t.op, ast.And):
+                return False if any(v is False for v in vs) else (True if all(v is True for v in vs) else None)
+            return True if any(v is True for v in vs) else (False if all(v is False for v in vs) else None)
+        if isinstance(t, ast.Compare) and len(t.ops) == 1 and isinstance(t.ops[0], (ast.In, ast.NotIn)) and isinstance(t.left, ast.Constant) and t.left.value == 'remote':
+            return env['R'] if isinstance(t.ops[0], ast.In) else not env['R']
+        if isinstance(t, ast.Name) and t.id in env.get('locals', {}):
+            return env['locals'][t.id]
+        mentions_k = any((isinstance(x, ast.Attribute) and x.attr == 'VAR_KEYWORD') or (isinstance(x, ast.Name) and x.id == 'VAR_KEYWORD') for x in ast.walk(t))
+        if mentions_k:
+            neg = any(isinstance(x, (ast.IsNot, ast.NotEq, ast.NotIn)) for x in ast.walk(t))
+            if isinstance(t, ast.Call) and isinstance(t.func, ast.Name) and t.func.id == 'all':
+                return None
+            return (not env['K']) if neg else env['K']
+        return None
+
+    def run_block(stmts, env, marks):
+        """set of outcomes; 'fall' when the block ends normally (carrying its marks through the env)"""
+        outs = set()
+        states = [frozenset(marks)]
+        for st in stmts:
+            nxt = []
+            for m in states:
+                if isinstance(st, ast.If):
+                    v = ev(st.test, env)
+                    for truth, blk in ((True, st.body), (False, st.orelse)):
+                        if v is None or v is truth:
+                            o, falls = run_block(blk, env, m)
+                            outs |= o
+                            nxt += falls
+                elif isinstance(st, (ast.Continue, ast.Break)):
+                    outs.add('aware' if 'aware' in m else 'block' if 'block' in m else 'skip')
+                elif isinstance(st, ast.Raise):
+                    outs.add('warn')
+                elif isinstance(st, ast.Assign) and len(st.targets) == 1 and isinstance(st.targets[0], ast.Name) and isinstance(st.value, ast.Constant):
+                    name, val = st.targets[0].id, st.value.value
+                    m2 = set(m)
+                    if name == verdict and val is True:
+                        m2.add('aware')
+                    if name in allow and val is False:
+                        m2.add('block')
+                    nxt.append(frozenset(m2))
+                else:
+                    nxt.append(m)
+            states = list(dict.fromkeys(nxt))
+            if not states:
+                break
+        return outs, states
+    spec = {(True, True): {'aware', 'warn'}, (True, False): {'aware', 'warn'}, (False, True): {'skip'}, (False, False): {'block'}}
+    for (r, k), allowed in spec.items():
+        outs, falls = run_block(body, {'R': r, 'K': k}, frozenset())
+        for m in falls:
+            outs.add('aware' if 'aware' in m else 'block' if 'block' in m else 'skip')
+        label = ('remote' if r else 'no-remote') + ('+kwargs' if k else '')
+        ctx.check(rule, f'a base whose __getstate__ has {"a" if r else "no"} `remote` parameter and {"a" if k else "no"} **kwargs is classified {sorted(allowed)}', bool(outs) and outs <= allowed,
+                  cf.short, f'base-classification:{label}->{",".join(sorted(outs - allowed)) or "nothing"}',
+                  f'a __getstate__({"remote=..., " if r else ""}{"**kwargs" if k else ""}) is classified {sorted(outs)} instead of {sorted(allowed)}: '
+                  + ('a remote-aware base is taken for a pass-through, so a class below it that drops `remote` is no longer rejected with a Warning (and a consistent class written '
+                     'this way is not recognised as opting in)' if r else 'the inconsistency check of the inheritance chain takes the wrong turn for this signature'),
+                  where=loc(cf, gs[0]))
 
 
 def _anc(pm, node):
